@@ -81,6 +81,11 @@ package resource
 //@   inline
 //@ func (Version).Value
 //@   inline
+// C18: the text form of a version parses back to the same version.
+//@ func (Version).String
+//@   props C18
+//@   ensures [text-of-undefined] v.uint64 == nil ==> result == "undefined"
+//@   ensures [text-of-number] v.uint64 != nil ==> result == decimalOf(*v.uint64)
 //@ func (Version).Next
 //@   inline
 //@ func (Version).Equal
@@ -115,7 +120,8 @@ package resource
 //@   inline
 
 //@ func ParseVersion
-//@   props C01
+//@   props C01 C18
+//@   ensures [number-parses-back] forall n uint64 :: 0 <= n && n <= 18446744073709551615 && ver == decimalOf(n) ==> result1 == nil && result0.uint64 != nil && *result0.uint64 == n
 //@   ensures [one] ver == "1" ==> result1 == nil && result0.uint64 != nil && *result0.uint64 == 1 && fresh(result0.uint64)
 
 // Query option constructors only build closures.
